@@ -586,6 +586,9 @@ def _readback(fmt, path, obj_cls, truth, q0):
                 not _same_numbers(d['discrepancies'], truth['disc']):
             return 'json:discrepancies-differ', {'got': d['discrepancies'], 'expected': truth['disc']}
         pops = d.get('populations')
+        # populations are samples of the object too: a file that carries them carries all of them
+        if isinstance(pops, dict) and truth['pops'] and len(pops) != len(truth['pops']):
+            return 'json:number-of-populations-differs', {'in_file': len(pops), 'in_object': len(truth['pops'])}
         if isinstance(pops, dict) and truth['pops'] and len(pops) == len(truth['pops']):
             for (key, pd), tp in zip(pops.items(), truth['pops']):
                 ps = pd.get('samples') if isinstance(pd, dict) else None
@@ -691,6 +694,9 @@ def _hist_objects(q):
         for n in (2,) if q else (1, 3):
             for n_pop in (1, 2) if q else (1, 2, 3):
                 objs.append({'cls': 'Smc', 'names': names, 'n': n, 'n_pop': n_pop, 'meta': 'np'})
+        if names == ['a']:      # more populations than letters in the alphabet (long adaptive runs)
+            for n_pop in (27, 53):
+                objs.append({'cls': 'Smc', 'names': names, 'n': 2, 'n_pop': n_pop, 'meta': 'np'})
         for m, L, wu in ((2, 3, 1),) if q else ((1, 2, 0), (2, 3, 1), (3, 4, 3)):
             objs.append({'cls': 'Bolfi', 'names': names, 'n': L, 'm': m, 'warmup': wu, 'meta': 'np'})
         for n, burn in ((3, 1),) if q else ((2, 0), (4, 1), (4, 3)):
